@@ -1,5 +1,9 @@
-// C06 correspondence harness: one fulfiller fiber (owns the SharedPromise) and 2-3 observer fibers, each running a
-// short program on its own SharedFuture copies, over the real MakeSharedContract<Val>.  All schedules under a
+// C06 correspondence harness: one fulfiller fiber and 2-3 observer fibers, each running a short program on its own
+// SharedFuture copies, over a real shared core.  Producer forms (`prod=`): the SharedPromise of MakeSharedContract<Val> /
+// MakeSharedContractOn<Val> (set, drop), a shared core that is ITSELF the callback of an upstream unique core —
+// Split(future) / Connect(future, SharedPromise) — reached through SharedCore::Here (upstream = a Promise) or through
+// SharedCore::Next (upstream = a coroutine Future finishing in final_suspend, with or without a ThenInline step in
+// between: symmetric transfer), and a coroutine returning SharedFuture (its own promise object is the shared core).  All schedules under a
 // preemption bound (or random schedules).  Emits canonical traces for `ymdriver validate shared` (the callback word
 // `w` and the reference counter `cnt` of the shared core are traced) and checks the property's monitors directly on
 // the implementation, independently of the model.
@@ -12,7 +16,11 @@
 #include <yaclib/async/shared_contract.hpp>
 #include <yaclib/async/shared_future.hpp>
 #include <yaclib/async/shared_promise.hpp>
+#include <yaclib/async/split.hpp>
 #include <yaclib/async/wait.hpp>
+#include <yaclib/coro/await.hpp>
+#include <yaclib/coro/future.hpp>
+#include <yaclib/coro/shared_future.hpp>
 #include <yaclib/exe/executor.hpp>
 #include <yaclib/util/cast.hpp>
 #include <yaclib/util/helper.hpp>
@@ -20,6 +28,7 @@
 #include <cstring>
 #include <map>
 #include <memory>
+#include <optional>
 
 namespace {
 
@@ -68,6 +77,8 @@ struct Val {
 using SF = yaclib::SharedFuture<Val>;
 using CoreT = yaclib::detail::SharedCore<Val, yaclib::StopError>;
 using HelperT = yaclib::detail::Helper<yaclib::detail::AtomicCounter, CoreT>;
+// the shared core of a `SharedFuture` coroutine is its promise object
+using CoroCounterT = yaclib::detail::AtomicCounter<CoreT, yaclib::detail::PromiseTypeDeleter<false, true>>;
 
 struct Peek : yaclib::detail::BaseCore {
   static yaclib_std::atomic_uintptr_t& Word(yaclib::detail::BaseCore& c) {
@@ -89,7 +100,9 @@ std::string Show(const yaclib::Result<Val>& r) {
 }
 
 struct Scenario {
-  std::string prod;                             // set:42 | drop
+  // set:42 | drop | seton:42 | split_set:42 | split_drop | conn_set:42 | split_coro:42 | split_coro_then:42 | conn_coro:42 |
+  // scoro:42
+  std::string prod;
   std::string exec;                             // now | late
   std::vector<std::vector<std::string>> progs;  // per observer
   int pb_extra = 0;                             // explored with a larger preemption bound than the rest
@@ -302,15 +315,76 @@ void RunOp(ObsCtx& o, const std::string& op) {
   }
 }
 
+// upstream producers that complete on the symmetric-transfer path (final_suspend -> SetResult<true> -> callback.Next)
+yaclib::Future<Val> UniqueCoro(yaclib::Future<> gate) {
+  co_await Await(gate);
+  gObs.set_started = true;  // no scheduling point between here and the Store of co_return
+  co_return Val{42};
+}
+
+yaclib::SharedFuture<Val> SharedCoro(yaclib::Future<> gate) {
+  co_await Await(gate);
+  gObs.set_started = true;
+  co_return Val{42};
+}
+
+TraceExec gOnExec{"on"};
+
 void RunScenario(const Scenario& sc) {
   gObs = Observed{};
   gCoreMoves = gCoreDtors = 0;
   gMovers.clear();
   gQueue.clear();
   gLate = sc.exec == "late";
-  gObs.value_payload = sc.prod == "set:42";
+  gObs.value_payload = sc.prod.size() > 3 && sc.prod.compare(sc.prod.size() - 3, 3, ":42") == 0;
   gWant = gObs.value_payload ? "val:42" : "err";
-  auto [f, p] = yaclib::MakeSharedContract<Val>();
+  // ---- build the shared state; what the fulfiller fiber has to do is one of: set/drop `sp`, set/drop `up`, open `gate`
+  SF f;
+  std::optional<yaclib::SharedPromise<Val>> sp;
+  std::optional<yaclib::Promise<Val>> up;
+  std::optional<yaclib::Promise<>> gate;
+  bool coro_core = false;
+  auto upstream = [&](bool coro, bool step) -> yaclib::Future<Val> {
+    if (!coro) {
+      auto [uf, p0] = yaclib::MakeContract<Val>();
+      up.emplace(std::move(p0));
+      return std::move(uf);
+    }
+    auto [gf, gp] = yaclib::MakeContract<>();
+    gate.emplace(std::move(gp));
+    auto cf = UniqueCoro(std::move(gf));
+    if (!step) return cf;
+    return std::move(cf).ThenInline([](Val v) {
+      return v;
+    });
+  };
+  if (sc.prod == "set:42" || sc.prod == "drop") {
+    auto [f0, p0] = yaclib::MakeSharedContract<Val>();
+    f = std::move(f0);
+    sp.emplace(std::move(p0));
+  } else if (sc.prod == "seton:42") {
+    auto [f0, p0] = yaclib::MakeSharedContractOn<Val>(gOnExec);
+    f = std::move(f0).On(nullptr);
+    sp.emplace(std::move(p0));
+  } else if (sc.prod == "split_set:42" || sc.prod == "split_drop") {
+    f = yaclib::Split(upstream(false, false));
+  } else if (sc.prod == "split_coro:42") {
+    f = yaclib::Split(upstream(true, false));
+  } else if (sc.prod == "split_coro_then:42") {
+    f = yaclib::Split(upstream(true, true));
+  } else if (sc.prod == "conn_set:42" || sc.prod == "conn_coro:42") {
+    auto [f0, p0] = yaclib::MakeSharedContract<Val>();
+    f = std::move(f0);
+    yaclib::Connect(upstream(sc.prod == "conn_coro:42", false), std::move(p0));
+  } else if (sc.prod == "scoro:42") {
+    auto [gf, gp] = yaclib::MakeContract<>();
+    gate.emplace(std::move(gp));
+    f = SharedCoro(std::move(gf));
+    coro_core = true;
+  } else {
+    Bad("harness: unknown producer " + sc.prod);
+    return;
+  }
   CoreT* core = f.GetCore().Get();
   // make reads of the not yet constructed storage deterministic (they are what D3 leads to)
   std::memset(static_cast<void*>(&core->_result), 0xEE, sizeof(core->_result));
@@ -328,15 +402,28 @@ void RunScenario(const Scenario& sc) {
   }
   auto& ctx = *vx::gCtx;
   ctx.NameObj(&Peek::Word(*core), "w");
-  ctx.NameObj(&static_cast<HelperT*>(core)->count, "cnt", true);
+  ctx.NameObj(coro_core ? &static_cast<CoroCounterT*>(core)->count : &static_cast<HelperT*>(core)->count, "cnt", true);
   ctx.NameValWord(0, "empty");
   ctx.NameValWord(~0ULL, "result");
-  vx::Thread tp("p", [&, p = std::move(p)]() mutable {
-    gObs.set_started = true;  // no scheduling point between here and the Store inside Set
-    if (sc.prod == "set:42") {
-      std::move(p).Set(Val{42});
+  vx::Thread tp("p", [&] {
+    if (gate) {
+      std::move(*gate).Set();  // resumes the coroutine here; it sets `set_started` right before its co_return
+      gate.reset();
+      return;
+    }
+    // SharedPromise: no scheduling point between here and the Store inside Set.  Upstream Promise: the value reaches the
+    // shared core's storage a little later (after the upstream word's exchange), which only makes the monitors lenient.
+    gObs.set_started = true;
+    if (sp) {
+      if (gObs.value_payload) {
+        std::move(*sp).Set(Val{42});
+      }
+      sp.reset();  // a still valid promise is dropped here
     } else {
-      auto dropped = std::move(p);
+      if (gObs.value_payload) {
+        std::move(*up).Set(Val{42});
+      }
+      up.reset();
     }
   });
   std::vector<vx::Thread> ts;
@@ -418,6 +505,18 @@ std::vector<Scenario> AllScenarios(std::uint64_t seed, bool big) {
     {{"get_move"}, {"get_move"}, {"connect", "drop"}},
   };
   for (auto& t : triples) out.push_back({"set:42", "now", t});
+  // the other producer forms (shared core entered as a callback through Here / through Next, shared coroutine, contract-on),
+  // each against a few subscriber sets with two or three subscribers pending at completion time
+  const std::vector<std::string> forms = {"seton:42",      "split_set:42",       "split_drop",   "conn_set:42",
+                                          "split_coro:42", "split_coro_then:42", "conn_coro:42", "scoro:42"};
+  const std::vector<std::vector<Prog>> subscribers = {
+    {{"sub_inline", "drop"}, {"then_exec", "drop"}, {"wait", "drop"}},
+    {{"then_inline", "drop"}, {"get_move"}},
+    {{"connect", "drop"}, {"sub_inline", "drop"}},
+    {{"getc", "drop"}, {"retire"}},
+  };
+  for (auto& form : forms)
+    for (auto& subs : subscribers) out.push_back({form, "now", subs});
   // seed dependent extras
   vx::SplitMix rng{seed * 0x9e3779b97f4a7c15ULL + 99};
   std::vector<Prog> pool = singles;
@@ -425,7 +524,7 @@ std::vector<Scenario> AllScenarios(std::uint64_t seed, bool big) {
   std::size_t extra = big ? 40 : 10;
   for (std::size_t k = 0; k < extra; ++k) {
     Scenario sc;
-    sc.prod = rng.below(4) == 0 ? "drop" : "set:42";
+    sc.prod = rng.below(4) == 0 ? "drop" : rng.below(3) == 0 ? forms[rng.below(forms.size())] : "set:42";
     sc.exec = rng.below(3) == 0 ? "late" : "now";
     std::size_t n = 2 + rng.below(2);
     for (std::size_t i = 0; i < n; ++i) sc.progs.push_back(pool[rng.below(pool.size())]);
